@@ -8,6 +8,8 @@ package gs
 import (
 	"bufio"
 	"fmt"
+	"io"
+	"os"
 	"strconv"
 	"strings"
 
@@ -116,6 +118,51 @@ func Solve(s *solver.Solver, cert, buffered bool) (SolveResult, error) {
 		}
 	} else {
 		res.Status = s.Solve()
+	}
+	res.Stats = s.Stats
+	if res.Status == solver.Sat {
+		res.Model = s.Model()
+	}
+	return res, nil
+}
+
+// SolveStdout runs s.Solve() with certificate generation on and no certificate channel: the library then
+// prints the certificate on the process's standard output, which is redirected to a pipe for the duration of
+// the call. Everything written there is returned as certificate lines (empty lines dropped).
+func SolveStdout(s *solver.Solver) (SolveResult, error) {
+	var res SolveResult
+	r, w, err := os.Pipe()
+	if err != nil {
+		return res, fmt.Errorf("harness: %v", err)
+	}
+	var text []byte
+	done := make(chan struct{})
+	go func() {
+		text, _ = io.ReadAll(r)
+		close(done)
+	}()
+	s.Certified = true
+	s.CertChan = nil
+	old := os.Stdout
+	func() {
+		defer func() {
+			os.Stdout = old
+			w.Close()
+			<-done
+			r.Close()
+		}()
+		os.Stdout = w
+		res.Status = s.Solve()
+	}()
+	for _, l := range strings.Split(string(text), "\n") {
+		if strings.TrimSpace(l) == "" {
+			continue
+		}
+		c, err := ParseCertLine(l)
+		if err != nil {
+			return res, err
+		}
+		res.Cert = append(res.Cert, c)
 	}
 	res.Stats = s.Stats
 	if res.Status == solver.Sat {
